@@ -136,11 +136,14 @@ func (s *scopedWalker) walkFn(path string, d fs.DirEntry, err error) error {
 	name := path
 	if s.strip != "" {
 		name = strings.TrimPrefix(name, s.strip)
+		if path+string(os.PathSeparator) == s.strip {
+			name = "."
+		}
 	}
 	if opts.DebugGTE(rsyncopts.DEBUG_FLIST, 1) {
 		logger.Printf("Trim(path=%q) = %q", path, name)
 	}
-	if path == "." {
+	if name == "." {
 		flags |= rsync.XMIT_TOP_DIR
 	}
 	// st.logger.Printf("flags for %q: %v", name, flags)
@@ -365,6 +368,12 @@ func (st *Transfer) SendFileList(localDir string, paths []string, excl *filterRu
 		}
 		// st.Logger.Printf("getRootStrip(requested=%q, localDir=%q", requested, localDir)
 		strip := getStrip(requested)
+		if strip == "" && requested != "/" {
+			// module/sub/f is transferred as f, not as sub/f
+			if dir := filepath.Dir(strings.TrimPrefix(filepath.Clean(requested), "/")); dir != "." {
+				strip = dir + string(os.PathSeparator)
+			}
+		}
 		// st.Logger.Printf("root=%q, strip=%q", root, strip)
 		if st.Opts.DebugGTE(rsyncopts.DEBUG_FLIST, 1) {
 			st.Logger.Printf("  fs.Walk(%q, %q), strip=%q", local, requested)
